@@ -18,6 +18,9 @@ ASSUME12 = [
     "context 'refused': Tor answers the call's SETCONF with a 5xx refusal; the call fails with it and nothing further is written on its "
     "behalf (one call, one line); "
     "the second of two identical calls on one connection (a refused call must be refused again, an accepted one written again)",
+    "calls of more than 2^20 bytes: every run of 1024 or more filler bytes ('Z') is cut to four bytes by the recorder, in the pairs "
+    "asked for and in the bytes written alike, and the run lengths are compared in order (KvLine_MC proves the grammar blind to the "
+    "length of such a run: RunBlind); TLC then decides the shortened line like any other - one line, parsing back to the pairs",
 ]
 ASSUME13 = [
     "TLC checks both that the wire lines the harness fed are Tor's rendering of the abstract key/value set (WireOK) and that the "
@@ -75,6 +78,23 @@ def vectors12(tier, seed):
             (["k\r\n", "v"], False), (["k\n", "v"], False), (["\nk", "v"], False), (["k ", "v"], False), ([" k", "v"], False),
             (["k\t", "v"], False), (["ControlPort", "9051", "SocksPort\r\n", "9050"], False),
             (["ControlPort", "9051", "SocksPort\n", "9050", "Log", "x"], False), (["A", "1", "\r\nB", "2"], False), (["odd"], True), (["a", "b", "c"], True)]
+    # calls of more than 2^20 bytes (Tor's own limit on a command line is not the library's to enforce by dividing a
+    # call: one call, one line): long runs of a filler byte, plain and inside values that need quoting
+    M = 2 ** 20
+    Z = "Z"
+    out += [(["Log", Z * (M + 1)], True), (["Log", Z * (M - 20)], True), (["Log", "notice " + Z * (M + 5)], True),
+            (["K", Z * (M // 2 + 10), "SocksPort", Z * (M // 2 + 10)], True),
+            (["K", "a", "Log", Z * (3 * M), "SocksPort", "9050"], True),
+            (["A", Z * 700000, "B", Z * 700000, "C", "x y"], True),
+            (["Log", Z * 2000 + "\\" + Z * (M + 7) + '" ' + Z * 1500], True)]
+    if tier != "quick":
+        for n in (M - 9, M - 8, M - 7, M - 2, M - 1, M, 2 * M, 5 * M):
+            out.append((["Log", Z * n], True))
+        for _ in range(12):
+            args = []
+            for i in range(rng.randint(1, 6)):
+                args += ["K_%d" % i, rng.choice(["", "x ", "\"", "a=b "]) + Z * rng.randint(1024, M) + rng.choice(["", " y", "\\"])]
+            out.append((args, True))
     return out
 
 
@@ -138,7 +158,8 @@ def run(pid, tier, seed):
         recs = []
         for i, (a, k) in enumerate(vectors12(tier, seed)):
             # invalid keys go through every context, the others rotate
-            for ctx in (["idle", "repeat", "queued", "dup", "refused"] if not k else [["idle", "repeat", "queued", "dup", "refused"][i % 5]]):
+            every = not k or any(isinstance(x, str) and len(x) > 1000 for x in a)      # invalid keys and long calls: every context
+            for ctx in (["idle", "repeat", "queued", "dup", "refused"] if every else [["idle", "repeat", "queued", "dup", "refused"][i % 5]]):
                 recs.append(kv.setconf_vector(a, k, ctx))
         key = lambda r: json.dumps([r["args"], r["ctx"]])
     else:
@@ -158,7 +179,7 @@ def run(pid, tier, seed):
     rep.cov["evaluations"] = len(recs)
     rep.cov["distinct_nontrivial"] = len(set(key(r) for r in recs))
     rep.cov["rule"] = ("C12: set_conf argument lists - exhaustive short values over {a,SP,TAB,\",\\,=,CR,LF}, 1-2 pairs, random printable "
-                       "values up to 40 chars, CR/LF injections, repeated keys, ints/bools, invalid keys; C13: GETINFO single-line values "
+                       "values up to 40 chars, CR/LF injections, repeated keys, ints/bools, invalid keys, calls of 1 to 5 MiB; C13: GETINFO single-line values "
                        "(exhaustive short strings over {a,=,SP,\",',2,5,0,.,O,K} and random printable text), two keys, data blocks of 1-3 "
                        "lines incl. dot-stuffed / status look-alike / k=v lines, GETCONF unset / empty / 1..3 values; under whole, "
                        "byte-at-a-time and random segmentation; distinct by input")
@@ -213,8 +234,7 @@ def replay(pid, path):
     p = json.load(open(path))
     v = p["vector"]
     if v["p"] == "C12":
-        import ast
-        rec = kv.setconf_vector([ast.literal_eval(a) for a in v["args"]], v["keysok"], v.get("ctx", "idle"))
+        rec = kv.setconf_vector([kv.dec_arg(a) for a in v["args"]], v["keysok"], v.get("ctx", "idle"))
     elif v["cmd"] == "GETINFO":
         rec = kv.getinfo_vector([(txt(k["key"]), k["block"], [txt(l) for l in k["lines"]]) for k in v["kvs"]], v.get("seg", "whole"), random.Random(0),
                                 v.get("noise", "none"), v.get("api", "dict"))
